@@ -32,6 +32,18 @@ CHECKS = {
    text="For 23 script tags (all 20 tags the library maps plus three unmapped ones) an alphabet of 12-14 code points (bases, marks of several modified combining classes incl. equal classes and a non-BMP mark, joiners, and the script's rewrite triggers: Arabic shadda/modifier marks, SARA AM, Khmer split vowels, Indic split matras, Bengali ya+nukta, Kannada ra-halant-ZWJ, every prohibited vowel pair of five scripts); ALL strings of length <= 5 (thorough <= 7) go through preprocess_text (and, up to length 3/4, Font::map_glyphs) and are compared with relational oracles (content preserved, bases fixed, mark runs permuted within themselves) and exact independent models (stable sort by modified class; UTR #53 for Arabic; the documented splits/recompositions/insertions); Arabic mark runs of 17-24 marks with <= 3 deviations and all group patterns up to 40 (64) marks.",
    note="Trusted: unicode-canonical-combining-class for base classes; modified-class table, UTR #53 steps and the rewrite tables re-derived from the specifications in the check; a documented rewrite that the library does not apply is recorded as an observation, not a violation; termination is not monitored.",
    technique="exhaustive enumeration of strings per script against independent reference models of the documented rewrites"),
+ "C07": dict(engine="mcx-choice-tree", cat="model_checking",
+   text="For 14 source fonts (TrueType, composite TrueType, CFF, CFF2, sbix, symbol; sfnt, WOFF and WOFF2 containers; thorough 21 incl. CID-keyed CFF) every ordered duplicate-free glyph list starting with 0 up to length 4 (thorough 5; all lengths for fonts with <= 6 glyphs) on the small fonts, and on the large fonts [0,g], [0,g,g+1], [0,g+1,g] for every (quick: every k-th) g, prefixes and reversed prefixes of length 2/255/256/257/n, the tail, and Mac-Roman-only / astral threshold lists, x {subset, prince::subset with each cmap target, CID conversion}: every retained glyph's recorded outline, advance and lsb in the output equal the source's.",
+   note="Trusted: outlines are compared through allsorts' own visitors on both sides (their semantics are decided independently by C16/C18); hmtx is read by an independent reader; fixture fonts only until the synthetic font generators are wired in.",
+   technique="exhaustive enumeration of (font, glyph list, option); differential oracle source vs output per retained glyph"),
+ "C08": dict(engine="mcx-choice-tree", cat="model_checking",
+   text="Same enumeration as C07; the source's selected cmap subtable and the output's cmap are both read by an independent reader (otmodel::read) and compared in character space: a character mapped to a retained glyph must map to its new id, every other character to glyph 0, whatever format the subsetter emits (0/4/12, Unicode/Mac Roman/Symbol records); Mac Roman target keeps only Mac Roman characters; Font::lookup_glyph_index on the output must agree.",
+   note="Trusted: otmodel::read cmap reader; selection of the source subtable and Mac Roman tables are C06's business; Symbol source with Mac Roman target is not modelled.",
+   technique="exhaustive enumeration of (font, glyph list, cmap target); independent cmap reader on both sides"),
+ "C09": dict(engine="mcx-choice-tree", cat="model_checking",
+   text="Every successful output of the C07 enumeration, of whole_font over all 2^k subsets of the tag list of three small fonts, of variations::instance at every {min, default, max, midpoints}^axes combination of five variable fixtures, and fonts rebuilt from WOFF2-reconstructed tables is checked by an independent validator: sorted directory, search fields, alignment, no overlap/gaps, zero padding, table checksums, checkSumAdjustment, file length, and maxp/hhea/hmtx/head/loca/glyf/cmap/post/CFF mutual consistency; then the library loads it and queries every glyph.",
+   note="Trusted: otmodel::sfnt::validate + otmodel::read::validate_font written from the OpenType specification; a padded loca in a null-transformed WOFF2 is attributed to the source font.",
+   technique="exhaustive enumeration of writer inputs; independent structural and cross-table validator on every output"),
 }
 
 NOT_YET = {
